@@ -214,6 +214,12 @@ class Binary(SubCheck):
                 r -= right
         except ValueError as e:
             out.outcome = "ValueError"
+            # a declined operation must leave its operands as they were (the right one always, the left one unless the
+            # operator is an in-place one): later uses of the same objects must not see a half-done operation
+            if (B.amount != float(F(b)) or B.units != ub
+                    or (op not in ("+=", "-=") and (A.amount != float(F(a)) or A.units != ua))):
+                out.fail("operator %s raised ValueError and left an operand modified" % op, [a + ua, b + ub], [str(A), str(B)],
+                         kind="operand", op=op, ua=ua, ub=ub, form=form)
             if defined:
                 out.fail("%s%s %s %s%s raised ValueError although both operands are of one family" % (a, ua, op, b, ub),
                          float(exp) if not isinstance(exp, bool) else exp, "ValueError", **tags)
